@@ -421,6 +421,67 @@ theorem call_site_partial (sig : List Ty) (rv : Option Ty) (c : CallSeq) (h : ge
       simp only [step]; rw [upd_other _ _ _ _ (by decide)]; exact hmv
     · simpa using hmv
 
+theorem ofNum?_num (n : Nat) (g : GPR) (h : GPR.ofNum? n = some g) : g.num = n := by
+  unfold GPR.ofNum? at h
+  split at h <;> simp at h <;> subst h <;> rfl
+
+theorem toSpec_parent (r : Reg) (loc : Spec.SysV.Loc) (h : r.toSpec = some loc) : r.parent = specId loc := by
+  cases r with
+  | r64 n | r32 n | r16 n =>
+    simp only [Reg.toSpec, Option.map_eq_some_iff] at h
+    obtain ⟨g, hg, rfl⟩ := h
+    simp [Reg.parent, specId, ofNum?_num n g hg]
+  | r8 n =>
+    simp only [Reg.toSpec] at h
+    split at h
+    · rename_i hn
+      simp only [Option.map_eq_some_iff] at h
+      obtain ⟨g, hg, rfl⟩ := h
+      simp [Reg.parent, specId, ofNum?_num n g hg, hn]
+    · simp at h
+  | xmmD n | xmmS n => simp [Reg.toSpec] at h; subst h; rfl
+
+/-- **Call sites, register arguments (partial, same guard).**  At the `call` instruction every
+    argument that the psABI passes in a register is in that register (`rdi rsi rdx rcx r8 r9`,
+    `xmm0…7` – the 8/16-bit ones sign-extended through `rax`). -/
+theorem call_site_register_args_partial (sig : List Ty) (rv : Option Ty) (c : CallSeq)
+    (h : genCall sig rv = .ok c) (s : MState) (i : Nat) (hi : i < sig.length)
+    (hreg : ∀ off, Spec.SysV.argLoc sig i ≠ .mem off) :
+    (run c.pre s).reg (specId (Spec.SysV.argLoc sig i)) = s.reg (vreg i) := by
+  simp only [genCall] at h
+  split at h
+  · simp at h
+  rename_i pushes hp
+  simp only [Except.ok.injEq] at h
+  subst h
+  simp only
+  rw [run_append, run_append]
+  generalize hsa : run (if callPad (memArgs sig).length ≠ 0 then [Instr.sub (callPad (memArgs sig).length)] else []) s = sa
+  have a2 : ∀ r, r ≠ 4 → sa.reg r = s.reg r := by
+    intro r hr; rw [← hsa]; split
+    · simp [step, upd_other _ _ _ _ hr]
+    · simp
+  obtain ⟨_, b2, _, _⟩ := pushArgs_spec _ pushes sa hp
+  generalize hsb : run pushes sa = sb at b2
+  -- the model's location of argument i is a register r with r.toSpec = argLoc sig i
+  have hl := arg_location_eq_spec sig i hi
+  cases hli : (determineArgLocations sig)[i]? with
+  | none => simp [hli] at hl
+  | some l =>
+    rw [hli] at hl
+    cases l with
+    | stack o sz => simp [Loc.toSpec] at hl; exact absurd hl.symm (hreg o)
+    | reg r =>
+      simp only [Option.bind_some, Loc.toSpec] at hl
+      obtain ⟨_, hpw, hmemb⟩ := regArgs_spec sig initState 0 init_distinct
+      obtain ⟨t, ht⟩ := hmemb i r hli
+      rw [Nat.zero_add] at ht
+      have hmv := moves_spec (regArgs sig)
+        (fun x hx => argLoop_regs sig initState init_good.1 init_good.2 x.2.2 (regArgsFrom_mem sig _ 0 x.1 x.2.1 x.2.2 hx))
+        hpw sb (i, t, r) ht
+      simp only at hmv
+      rw [← toSpec_parent r _ hl, hmv, b2 _ (by simp [vreg]; omega) (by simp [vreg]), a2 _ (by simp [vreg]; omega)]
+
 /-! ## 5. function entry: every parameter is read from its psABI location -/
 
 /-- the value at a psABI location in the state right after `push rbp; mov rbp, rsp` -/
@@ -428,10 +489,6 @@ def valueAt (s : MState) : Spec.SysV.Loc → Int
   | .gpr r => s.reg r.num
   | .xmm n => s.reg (16 + n)
   | .mem off => s.mem (s.reg 5 + (off : Int))
-
-theorem ofNum?_num (n : Nat) (g : GPR) (h : GPR.ofNum? n = some g) : g.num = n := by
-  unfold GPR.ofNum? at h
-  split at h <;> simp at h <;> subst h <;> rfl
 
 theorem toSpec_locVal (s : MState) (l : Loc) (sl : Spec.SysV.Loc) (h : l.toSpec = some sl) :
     locVal s l = valueAt s sl := by
